@@ -37,4 +37,20 @@ PROPS = {
         ],
         "trusted_base": ["modelled: sampling.rs (multiply, estimate_samples_count, random_sample, sampling, sample_blocks), LightClientProtocol::build_prove_request_content"],
     },
+    "C01": {
+        "op": "c01",
+        "run_module": "RunC01",
+        "n": {"quick": 200, "thorough": 3000},
+        "rule": "part A: check_if_response_is_matched called directly on honest-shaped header lists (reorg / sampled / last-N sections derived from a "
+                "ground-truth difficulty table) and 3 mutations each (drop, duplicate, swap, number, parent total difficulty, compact, boundary, "
+                "difficulties, start, last number, append, empty, reorg section, extra header); part B: the whole handler through received() on "
+                "synthetic variable-difficulty chains (fresh client / previous proof with small gap / sampled gap), the client's own request, the "
+                "honest prover's answer and 3 mutations of it from a 16-operator grid (header field forgeries incl. chain root, fork header "
+                "substitution, proof item drop/duplicate/alter, other last header); distinct = distinct model input expression",
+        "assumptions": [
+            "oracle verdicts are computed by the harness through direct library calls: PoW engine verify, the harness's own reading of patched_is_valid, MMRProof::verify",
+            "single peer (the copy-from-another-peer route is exercised under C11/C12)",
+        ],
+        "trusted_base": ["modelled: check_if_response_is_matched, SendLastStateProofProcess::execute, commit_prove_state, check_continuous_headers, is_parent_of"],
+    },
 }
